@@ -65,6 +65,10 @@ CHECKS = {
    text="OplTypes.tla models the deferred type checks as written (Accepted) and the relation lookups the engine performs at run time (RuntimeOK) over a space of programs (type of the traversed relation, type of the group relation, which namespaces declare the permission, five permission bodies, seven single-reference mutations); TLC shows that type rules which look the computed relation up where the engine evaluates it are sound. Every enumerated program goes through the real parser: mutants must be rejected with an error whose source span is the offending token; accepted programs are loaded into a real server, relationships conforming to the declared types are written and every declared relation is checked for two subjects on five objects: no schema error may occur.",
    note="The recorded finding (traverse over a SubjectSet<T,R> type) is attributed only for programs whose RuntimeOK the spec evaluates to FALSE. One program layout (three namespaces).",
    technique="TLC-enumerated programs with spec-computed acceptance/run-time predicates replayed through parser and engine", ref="4/C11"),
+ "C16": dict(
+   text="NameMap.tla models how names become UUIDs and back: FromTuple's collect / map / assign-by-position, and the read path's de-duplication, lookup in pages of at most MP and scatter to every asking position; TLC checks for every batch up to a length over three symbols that the round trip is the identity position by position, that every distinct id is looked up exactly once and that no page exceeds MP. Every batch shape is instantiated with nine classes of adversarial strings and sized batches cross the real page of 100 in five repetition patterns; the real Mapper round trip, the determinism/injectivity of the id mapping, write + REST/gRPC read-back and the size of every lookup statement are checked.",
+   note="sqlite only; UUIDv5 collisions are assumed away.",
+   technique="TLA+ model checking (TLC) + spec-enumerated batch shapes replayed through mapper, manager and read APIs", ref="4/C16"),
 }
 NOT_YET = "check not built yet in this session (work in progress, see DESIGN.md section 12)"
 
